@@ -234,6 +234,10 @@ def precedence_cases() -> list[dict[str, Any]]:
                 for block_kind in (("with", "for") if "block" in layers else ("none",)):
                     for local_kind in (("assign", "capture") if "local" in layers else ("none",)):
                         cases.append({"name": name, "layers": sorted(layers, key=ORDER.index), "block": block_kind, "local": local_kind})
+                        # the same subset with every caller-supplied mapping a defaultdict: a lookup that misses a layer
+                        # must not insert the name into it (and the layers below must still be consulted)
+                        if name == "v" and local_kind != "capture" and block_kind != "for":
+                            cases.append({"name": name, "layers": sorted(layers, key=ORDER.index), "block": block_kind, "local": local_kind, "dd": True})
                         # the same subset with ONE layer binding the name to nil: a nil binding is a binding
                         if name == "v" and local_kind != "capture":
                             for nl in sorted(layers & {"block", "local", "arg", "matter", "tglobal", "eglobal"}, key=ORDER.index):
@@ -272,10 +276,15 @@ def check_precedence(case: dict[str, Any], res: ShardResult | None) -> list[tupl
     # after the block: direct probe, included probe, lambda probe, lambda probe in a RENDERED partial (isolated scope),
     # then a lambda whose parameter has the probed name and which is left early (has), then the direct probe again
     src = pre + body + probe + "{% include 'probe' %}" + lprobe + "{% render 'lprobe' %}{% assign zz = one | has: " + n + " => true %}" + probe
-    loader = MatterLoader({"main": src, "probe": "⟪{{ " + n + " }}⟫", "lprobe": "⟪{{ one | map: q => " + n + " | first }}⟫"}, {n: val("matter", "MATTER")} if "matter" in layers else {})
-    env = impl.make_env(loader=loader, globals={n: val("eglobal", "EGLOBAL"), "one": ["x"]} if "eglobal" in layers else {"one": ["x"]})
+    dd = (lambda m: defaultdict(list, m)) if case.get("dd") else (lambda m: m)
+    matter = dd({n: val("matter", "MATTER")} if "matter" in layers else {})
+    eglobals = dd({n: val("eglobal", "EGLOBAL"), "one": ["x"]} if "eglobal" in layers else {"one": ["x"]})
+    tglobals = dd({n: val("tglobal", "TGLOBAL")}) if "tglobal" in layers else (dd({}) if case.get("dd") else None)
+    loader = MatterLoader({"main": src, "probe": "⟪{{ " + n + " }}⟫", "lprobe": "⟪{{ one | map: q => " + n + " | first }}⟫"}, matter)
+    env = impl.make_env(loader=loader, globals=eglobals)
+    before = [snapshot(matter), snapshot(eglobals), snapshot(tglobals)]
     try:
-        t = env.get_template("main", globals={n: val("tglobal", "TGLOBAL")} if "tglobal" in layers else None)
+        t = env.get_template("main", globals=tglobals)
         args: dict[str, Any] = {"blockvals": [val("block", "BLOCK")]}
         if "arg" in layers:
             args[n] = val("arg", "ARG")
@@ -287,6 +296,10 @@ def check_precedence(case: dict[str, Any], res: ShardResult | None) -> list[tupl
         res.evaluations += 1
         if len(layers) >= 2:
             res.nontrivial.add(h64(case))
+    after = [snapshot(matter), snapshot(eglobals), snapshot(tglobals)]
+    for which, b, a in zip(("matter", "environment-globals", "template-globals"), before, after):
+        if a != b:
+            out.append((f"C10:precedence-layer-mutated:{which}", {**case, "source": src}, b, a))
     import re
 
     vals = re.findall(r"[⟨⟪]([^⟩⟫]*)[⟩⟫]", rendered)
@@ -406,7 +419,7 @@ def replay(case: dict[str, Any]) -> list[dict[str, Any]]:
         for sig, c, exp, obs in run_program(generic, None):
             res.violation(sig, case, exp, obs)
     else:
-        c = {k: case[k] for k in ("name", "layers", "block", "local")}
+        c = {k: case[k] for k in ("name", "layers", "block", "local", "nil_layer", "dd") if k in case}
         for sig, cc, exp, obs in check_precedence(c, None):
             res.violation(sig, case, exp, obs)
     return res.violations
